@@ -48,6 +48,10 @@ KNOWN = [
 
 # subject prefix (after 'fix: ') -> (properties, rule, what failed)
 FIXED = [
+    ("'require[p]' with a non-decimal or complex literal escaped as ValueError", ["C10"], "C10.partial", "`require[0x1] C` and `require[1j] C` escaped from the parser with ValueError (float() of the token text) (F61; reported by an independent agent)"),
+    ("'require monitor M() as name' crashed the compiler", ["C10"], "C10.groups", "`require monitor M() as foo` failed with TypeError (invalid type in Constant: list): the optional `as <name>` group had no action, so the name was the list of matched items (F62; reported by an independent agent)"),
+    ("'else' in a try-interrupt statement without 'except' was dropped or crashed the compiler", ["C10"], "C10.partial", "`try / interrupt when / else / finally` without `except` escaped with ValueError (Try has orelse but no except handlers), and without `finally` the else block was silently discarded (F63; reported by an independent agent)"),
+    ("'return <Scenic expression>' inside an interrupt block crashed the compiler", ["C10", "C13"], "C10.children", "`return 3 deg` inside an interrupt handler escaped with TypeError from compile(): visit_Return embedded the returned expression without compiling it (F64; reported by an independent agent)"),
     ("minimum distance between overlapping solids was positive when a non-convex one encloses the other", ["C04"], "C04.distance", "`distance from A to B` for an object B lying strictly inside a non-convex object A (no surface contact) was positive (the gap between the two surfaces) although the solids overlap: FCL's distance query on non-convex meshes measures surfaces (F60; found by reading the property's distance clause against MeshVolumeRegion.minimumDistanceTo)"),
     ("a precondition violation at the start of the top-level scenario left it marked as running", ["C14"], "C14.started", "after one simulation ended with a violated precondition of the top-level scenario (checked in DynamicScenario._start), every later simulation of the same compiled scenario failed `assert not self._isRunning`: the scenario was marked as running but not yet registered for cleanup (F59; noticed by an independent agent while seeding changes)"),
     ("re-check invariants inside try-interrupt with the agent, not None", ["C13"], "C13.invariants", "an invariant mentioning `self` raised AttributeError ('NoneType' object has no attribute ...) as soon as its behaviour took a step inside a try-interrupt statement: runTryInterrupt re-checked the invariants with None in place of the agent (F58; noticed by an independent agent while seeding changes)"),
